@@ -658,7 +658,6 @@ pub fn internal_get_implicit_input(
                         acc.checked_add(&key_deposit)
                     }
                 }
-                CertificateEnum::PoolRetirement(_) => acc.checked_add(&pool_deposit),
                 CertificateEnum::DRepDeregistration(cert) => acc.checked_add(&cert.coin),
                 _ => Ok(acc),
             })?,
